@@ -488,6 +488,26 @@ def run_builtins(rec):
         except Exception:
             rec.count("builtin_argument_kinds_rejected")
             continue
+        # the same call written with keywords, in reverse order (all keywords / first argument positional): the
+        # result kinds may not depend on how the arguments are written
+        names = list(func.arg_names)[:len(args)]
+        for npos in (0, 1):
+            kw = {i: kinds[i] for i in range(npos)}
+            for i in reversed(range(npos, len(args))):
+                kw[names[i]] = kinds[i]
+            if len(args) - npos < 2:
+                continue
+            rec.count("builtin_keyword_presentations_checked")
+            try:
+                got = func.get_result_kinds(kw, check=True)
+            except Exception as ex:
+                got = f"{type(ex).__name__}: {ex}"
+            if got != want:
+                rec.violation(f"builtin-result-kind-depends-on-argument-spelling-{fname.replace('<builtin>', '')}",
+                              f"{fname}: positional arguments give {[kind_name(k) for k in want]}, "
+                              f"{list(kw)} gives {got if isinstance(got, str) else [kind_name(k) for k in got]}",
+                              {"builtin": fname, "args": [a[0] for a in args], "keywords": [str(k) for k in kw]})
+                break
         try:
             with np.errstate(all="ignore"):
                 res = impls[fname](*[backends.copyval(a[1]) for a in args])
